@@ -384,6 +384,7 @@ fn replay(prop: &str, file: &std::path::Path) {
             std::process::exit(if fs.is_empty() { 0 } else { 1 });
         }
         "C12" if case.get("tokens").is_some() => simple_replay("C12", vh::c12b::replay(case)),
+        "C01" | "C03" | "C04" if case.get("block").is_some() => simple_replay(prop, vh::scalar::replay(case)),
         "C09" | "C10" | "C11" | "C12" => {
             let ms = vh::domx::replay(case);
             let mine: Vec<_> = ms.iter().filter(|m| m.prop == prop).collect();
